@@ -579,7 +579,21 @@ fn check_grammar(g: &GrammarCase, checks: &[String], out: &mut Out, stats: &mut 
     }
 }
 
+/// serde_json refuses input nested deeper than 128 levels; the deep-document universes go beyond that on purpose
+fn from_line<T: serde::de::DeserializeOwned>(line: &str) -> Result<T, serde_json::Error> {
+    let mut de = serde_json::Deserializer::from_str(line);
+    de.disable_recursion_limit();
+    T::deserialize(&mut de)
+}
+
 fn main() {
+    // deep documents need a deep stack in the HARNESS (conversion, address map); the code under test runs on it too,
+    // which is why deep-nesting behaviour of the library itself is observed in the isolated worker (C08), not here
+    let t = std::thread::Builder::new().stack_size(1 << 30).spawn(real_main).expect("spawn");
+    let _ = t.join();
+}
+
+fn real_main() {
     quiet_panics();
     let args: Vec<String> = std::env::args().collect();
     let mut checks: Vec<String> = vec!["nodes".into()];
@@ -705,7 +719,7 @@ fn main() {
             }
             continue;
         }
-        let case: EvalCase = match serde_json::from_str(&line) {
+        let case: EvalCase = match from_line(&line) {
             Ok(c) => c,
             Err(e) => {
                 eprintln!("TOOL-ERROR bad case line: {e}: {}", &line[..line.len().min(200)]);
@@ -736,6 +750,36 @@ fn main() {
             // J against the specification (reported under the same checks, repr = "J")
             let jobs = check_eval(&case, &jd, &docj, "J", if sorted { &[] } else { &jchecks }, &mut out, &mut stats);
             if has("j") && sorted {
+                // third representation: shared sub-documents (same address at several locations); paths and values only
+                {
+                    use verif_harness::j::Sh;
+                    let q = cps_to_string(&case.q);
+                    let vdoc = case.doc.to_value();
+                    let sdoc = Sh::from_value(&vdoc, &mut HashMap::new());
+                    // numbers are compared by value (the shared representation stores integers beyond i64 as floats)
+                    fn canon(v: &Value) -> Value {
+                        match v {
+                            Value::Number(n) => json!(n.as_f64()),
+                            Value::Array(a) => Value::Array(a.iter().map(canon).collect()),
+                            Value::Object(o) => Value::Object(o.iter().map(|(k, x)| (k.clone(), canon(x))).collect()),
+                            x => x.clone(),
+                        }
+                    }
+                    let vres = guarded(|| vdoc.query_with_path(&q).map(|rs| rs.into_iter().map(|r| (canon(r.clone().val()), r.path())).collect::<Vec<_>>()).map_err(|e| e.to_string()));
+                    let sres = guarded(|| sdoc.query_with_path(&q).map(|rs| rs.into_iter().map(|r| (canon(&r.clone().val().to_value()), r.path())).collect::<Vec<_>>()).map_err(|e| e.to_string()));
+                    *stats.entry("shared".into()).or_default() += 1;
+                    if vres != sres {
+                        let mut m = base(&case, &q, &docj, "j", "Sh-vs-Value");
+                        m["what"] = json!("a Queryable with structurally shared sub-documents gives a different result than serde_json::Value");
+                        let fmt = |r: &Result<Result<Vec<(Value, String)>, String>, String>| -> Vec<String> {
+                            match r { Ok(Ok(v)) => v.iter().map(|(x, p)| format!("{} = {}", p, x)).collect(), Ok(Err(e)) => vec![format!("Err({e})")], Err(p) => vec![format!("panic({p})")] }
+                        };
+                        let (fv, fs) = (fmt(&vres), fmt(&sres));
+                        m["only_value"] = json!(fv.iter().filter(|x| !fs.contains(x)).take(6).collect::<Vec<_>>());
+                        m["only_shared"] = json!(fs.iter().filter(|x| !fv.contains(x)).take(6).collect::<Vec<_>>());
+                        out.mismatch(m);
+                    }
+                }
                 *stats.entry("j".into()).or_default() += 1;
                 // differential: same paths, equal values, position by position
                 let q = cps_to_string(&case.q);
